@@ -563,6 +563,11 @@ fn gen_history(rng: &mut Rng, target: usize) -> (Vec<Op>, Feats) {
             g.alter();
         } else if r < 97 && g.events < 12 {
             g.event();
+        } else if r >= 97 && f.wal {
+            // the log can be switched off and on again in mid-history: whatever is in the log at that
+            // moment must not come back over newer pages at a later checkpoint / drop / reopen
+            let on = g.rng.chance(1, 2);
+            g.sql(format!("PRAGMA wal = {}", if on { "ON" } else { "OFF" }), Meta::None, "pragma");
         }
     }
     // always end with an event (most often a reopen)
